@@ -601,6 +601,7 @@ pub fn gen_world(rng: &mut Rng, o: &WorldOpts) -> Vec<Obj> {
     let mut truth = 0;
     let nproto = (o.nobj / 2).max(1);
     let protos: Vec<Vec<f32>> = (0..o.nobj.max(1)).map(|_| unit(rng, o.feat_dim)).collect();
+    let convoy_speed = rng.uniform(0.1, 0.9);
     for s in 0..o.scenes {
         for k in 0..o.nobj {
             truth += 1;
@@ -631,7 +632,9 @@ pub fn gen_world(rng: &mut Rng, o: &WorldOpts) -> Vec<Obj> {
                     h = 50.0 + rng.uniform(-2.0, 2.0);
                     x = 200.0 + k as f64 * h * 0.45;
                     y = 300.0 + rng.uniform(-4.0, 4.0);
-                    vx = h * 0.12;
+                    // per-world speed between 10% and 80% of the spacing: above 50% a detection overlaps the
+                    // neighbour's last box more than its own (greedy trap)
+                    vx = h * 0.45 * convoy_speed;
                     vy = rng.uniform(-0.3, 0.3);
                 }
                 "crowd" => {
